@@ -18,7 +18,7 @@ META = {
               "64000 triples (three symbolic indices, sharded by the first); <n>: every integer; lengths 0..12",
     "outside": ["'^R' literals are lexed from concrete text: the three characters are enumerated structure there (all 64000 in thorough as a "
                 "concrete side check); only pack_to_int underneath is decided symbolically"],
-    "structure": "position x neighbour pair; string lengths 0..12; <n> alone and mixed with text",
+    "structure": "position x neighbour pair; string lengths 0..12; <n> alone, first, last, twice, as fourth character and between empty strings; ^R literals of length 1-3 with every alphabet character in every position",
     "stubs": [],
 }
 
